@@ -894,6 +894,11 @@ func (s *scope) interpretSlice(obj pyObject, sl *Slice) pyObject {
 		// A slice of a list is a new list; it must not share storage with the original.
 		return slices.Clone(t[start:end])
 	} else if t, ok := obj.(pyString); ok {
+		if r := []rune(t); len(r) != len(t) {
+			// Not all ASCII. The bounds count characters (as len() and indexing do), not bytes.
+			end := s.interpretSliceExpression(obj, sl.End, newPyInt(len(r)))
+			return pyString(r[start:end])
+		}
 		end := s.interpretSliceExpression(obj, sl.End, newPyInt(len(t)))
 		return t[start:end]
 	}
